@@ -400,6 +400,19 @@ def main():
         die("translator c19: resolve_delegation lost its `depth >= MAX_DELEGATION_DEPTH` bound")
     if len(re.findall(r"depth\s*\+\s*1", rd)) != 2:
         die("translator c19: resolve_delegation no longer recurses with depth + 1 in exactly two places")
+    # the re-delegation branch: the Principal who re-delegated is looked up and must be ACTIVE before the recursion
+    # into the linked parent (repair of finding F-C19-4)
+    m_branch = re.search(r"if\s*!\s*delegation\.parent_delegation\.is_empty\(\)\s*\{", rd)
+    if not m_branch:
+        die("translator c19: resolve_delegation lost its `if !delegation.parent_delegation.is_empty()` branch")
+    branch = block_after(rd, m_branch.end() - 1)
+    m_live = re.search(r"find_principal\(\s*&delegation\.delegator_principal\s*\)", branch)
+    m_rec = re.search(r"resolve_delegation\(\s*store\s*,\s*space_id\s*,\s*&linked\s*,", branch)
+    if not m_rec:
+        die("translator c19: the re-delegation branch no longer resolves the linked parent Delegation")
+    redelegator_checked = bool(m_live and m_live.start() < m_rec.start()
+                               and re.search(r"status\s*==\s*status::ACTIVE", branch[m_live.start():m_rec.start()])
+                               and re.search(r"return\s+Ok\(None\)", branch[m_live.start():m_rec.start()]))
 
     # ---- nexus.rs: Session::execute arms --------------------------------------------------
     nexus = cut_tests(strip_comments_keep_strings(read_source(repo, nx + "nexus.rs")))
@@ -507,6 +520,8 @@ def main():
     A(f"def authorizeDenyReturnsAfter : List String := {lean_list(deny_after)}")
     A(f"def ownerCandidateExport : Bool := {'true' if owner_export else 'false'}")
     A(f"def ownerCandidateMayDelegate : Bool := {'true' if owner_deleg else 'false'}")
+    A("/-- resolve_delegation, re-delegation branch: the re-delegating Principal is looked up and must be ACTIVE before the recursion -/")
+    A(f"def redelegatorMustBeActive : Bool := {'true' if redelegator_checked else 'false'}")
     A("")
     A("/-! ### KQL -/")
     A(f"def kqlBase : List String := {lean_list(kql_base)}")
@@ -566,6 +581,7 @@ def main():
     A("theorem gen_authorize_deny_returns : authorizeDenyReturnsAfter =")
     A('    ["inactive_principal", "suspended_space", "deny_statements", "choose_least_restrictive"] := by decide')
     A("theorem gen_owner_candidate : ownerCandidateExport = true ∧ ownerCandidateMayDelegate = true := by decide")
+    A("theorem gen_redelegator_must_be_active : redelegatorMustBeActive = true := by decide")
     A("theorem gen_permission_names_nodup : permissionNames.Nodup := by decide")
     A("end AndaVerif.Gen.GateTables")
     write_gen(gen, "GateTables.lean", "\n".join(L) + "\n")
